@@ -64,6 +64,8 @@ func runC18(c *core.Ctx) {
 
 	runR183(c)
 	runR184(c)
+	runR185(c)
+	runR186(c)
 
 	// ---- R18.2
 	lockKey := "T:" + core.Mod + "/metrics.hist.lock*"
